@@ -47,26 +47,36 @@ def find_accumulation(text: T):
         if cur.a[0].a[1] in ("strip", "rstrip") and cur.a[1][:1] == (const(b"\x00"),):
             nul_removed = "trailing-only"
         cur = cur.a[0].a[0]
-    for x in sym.walk(cur):
-        if x.op != "ite":
-            continue
-        c, a, b = x.a
-        if not (a.op == "bin" and a.a[0] == "+" and b.op == "bin" and b.a[0] == "+"):
-            continue
-        sl = a.a[2]
-        if sl.op == "slice" and sl.a[0].op == "attr" and sl.a[0].a[1] == "data":
-            ev = sl.a[0].a[0]
-            if _bit_test(c, ev, START_BIT) and b.a[2] == T("attr", (ev, "data")):
-                lo, hi = sl.a[1], sl.a[2]
-                K = lo.a[0] if lo.op == "const" else None
-                left_ok = a.a[1].op == "widen" and b.a[1].op == "widen"
-                return ev, K, left_ok and hi == const(None), nul_removed, decoded
-        # accumulator on the right (reversed order)
-        sl = a.a[1]
-        if sl.op == "slice" and sl.a[0].op == "attr" and sl.a[0].a[1] == "data":
-            ev = sl.a[0].a[0]
-            if _bit_test(c, ev, START_BIT):
-                return ev, (sl.a[1].a[0] if sl.a[1].op == "const" else None), False, nul_removed, decoded
+    def cases(x):
+        """(cond, then-term, else-term) views of a conditional accumulation: ite(c, acc+X, acc+Y) or acc + ite(c, X, Y)."""
+        if x.op == "ite":
+            yield x.a
+        if x.op == "bin" and x.a[0] == "+":
+            l, r = x.a[1], x.a[2]
+            if r.op == "ite":
+                yield (r.a[0], T("bin", ("+", l, r.a[1])), T("bin", ("+", l, r.a[2])))
+            if l.op == "ite":
+                yield (l.a[0], T("bin", ("+", l.a[1], r)), T("bin", ("+", l.a[2], r)))
+
+    for x0 in sym.walk(cur):
+        for (c, a, b) in cases(x0):
+          if True:
+            if not (a.op == "bin" and a.a[0] == "+" and b.op == "bin" and b.a[0] == "+"):
+                continue
+            sl = a.a[2]
+            if sl.op == "slice" and sl.a[0].op == "attr" and sl.a[0].a[1] == "data":
+                ev = sl.a[0].a[0]
+                if _bit_test(c, ev, START_BIT) and b.a[2] == T("attr", (ev, "data")):
+                    lo, hi = sl.a[1], sl.a[2]
+                    K = lo.a[0] if lo.op == "const" else None
+                    left_ok = a.a[1].op == "widen" and b.a[1].op == "widen"
+                    return ev, K, left_ok and hi == const(None), nul_removed, decoded
+            # accumulator on the right (reversed order)
+            sl = a.a[1]
+            if sl.op == "slice" and sl.a[0].op == "attr" and sl.a[0].a[1] == "data":
+                ev = sl.a[0].a[0]
+                if _bit_test(c, ev, START_BIT):
+                    return ev, (sl.a[1].a[0] if sl.a[1].op == "const" else None), False, nul_removed, decoded
     return None
 
 
@@ -89,7 +99,7 @@ def check(repo: Repo, run: Run) -> None:
     vg = repo.method("traces_parser", "TracesParser", "vnode_generator")
     rec = interp.run(tp.module, vg, self_cls=tp)
     ys = [r for r in rec.returns if r.kind == "yield"]
-    if len(ys) != 1 or ys[0].value.op != "call" or len(ys[0].value.a[1]) != 3:
+    if len(ys) != 1 or ys[0].value.op != "call" or len(ys[0].value.a[1]) + len(ys[0].value.a[2]) != 3:
         raise AnalysisError("vnode_generator does not yield exactly one Vnode(events, id, path)")
     yv = ys[0].value
     vfields = _namedtuple_fields(repo, "traces_parser", "Vnode")
@@ -139,7 +149,11 @@ def check(repo: Repo, run: Run) -> None:
                    facts={"term": sym.pretty(t)[:160] if t is not None else None})
     # vnode_generator emits on the END bit and resets
     y = ys[0]
-    inner = [c for c, pol in y.pc if pol]
+    inner = []
+    for c, pol in y.pc:
+        atom, apol = render.norm_bool(c)
+        if (pol if apol else not pol):
+            inner.append(atom)
     ev_t = None
     for lid in y.loops:
         lr = rec.loops[lid]
